@@ -21,6 +21,7 @@ structure CS where
   enabled : Option (List Nat) := none      -- commands the model enables
   algs : Option Algs := none
   sfl : Nat := 0
+  attrFlags : Nat := 0                     -- what the profile's Attributes switch on
   active : Option String := none           -- ActiveProfile text reported first
   first : Surface := {}
   cur : Surface := {}
@@ -56,28 +57,29 @@ def nullCommands : String := "0x11f-0x122,0x124-0x12e,0x130-0x140,0x142-0x159,0x
 def defaultAlgorithms : String := "rsa,rsa-min-size=1024,tdes,tdes-min-size=128,sha1,hmac,aes,aes-min-size=128,mgf1,keyedhash,xor,sha256,sha384,sha512,null,rsassa,rsaes,rsapss,oaep,ecdsa,ecdh,ecdaa,sm2,ecschnorr,ecmqv,kdf1-sp800-56a,kdf2,kdf1-sp800-108,ecc,ecc-min-size=192,ecc-nist,ecc-bn,ecc-sm2-p256,symcipher,camellia,camellia-min-size=128,cmac,ctr,ofb,cbc,cfb,ecb"
 
 /-- the model's verdict on a profile: `none` = must be rejected; `some (commands, algorithms, level)` = accepted with this surface -/
-def verdict (js : String) : Option (List Nat × Algs × Nat) :=
+def verdict (js : String) : Option (List Nat × Algs × Nat × Nat) :=
   if !js.endsWith "}" then none else
   match strField js "Name" with
   | none => none
   | some name =>
     let custom := name.startsWith "custom:" || name == "custom"
-    let req := numField js "StateFormatLevel"
+    -- a StateFormatLevel of 0 is the code's "not given" (STATE_FORMAT_LEVEL_UNKNOWN)
+    let req := match numField js "StateFormatLevel" with | some 0 => none | r => r
     if !custom then
       if name ≠ "null" ∧ name ≠ "default-v1" then none
       else if (keysOf js).length > 1 then none
       else
         let lvl := if name = "null" then 1 else STATE_FORMAT_LEVEL_CURRENT
         match setCommands (if name = "null" then nullCommands else defaultCommands).toList lvl, setAlgorithms defaultAlgorithms lvl with
-        | some (en, _), some a => some (en, a, lvl)
+        | some (en, _), some a => some (en, a, lvl, 0)
         | _, _ => none
     else
-      if (strField js "Attributes").any (fun a => a ≠ "") ∧ (strField js "Attributes") = some "no-such-attribute" then none else
       if !customLevelOk req then none else
       let maxSfl := req.getD STATE_FORMAT_LEVEL_CURRENT
-      match setCommands ((strField js "Commands").getD defaultCommands).toList maxSfl, setAlgorithms ((strField js "Algorithms").getD defaultAlgorithms) maxSfl with
-      | some (en, s1), some a => some (en, a, max (max s1 2) (req.getD 0))
-      | _, _ => none
+      match setCommands ((strField js "Commands").getD defaultCommands).toList maxSfl, setAlgorithms ((strField js "Algorithms").getD defaultAlgorithms) maxSfl,
+            setAttributes ((strField js "Attributes").getD "") maxSfl with
+      | some (en, s1), some a, some (fl, s3) => some (en, a, max (max (max s1 2) (req.getD 0)) s3, fl)
+      | _, _, _ => none
 
 def parseList (s : String) : List Nat := (s.splitOn ",").filterMap String.toNat?
 def libImplemented (cc : Nat) : Bool := match Gen.ccTable.find? (·.1 == cc) with | some (_, _, _, impl, _) => impl | none => false
@@ -127,7 +129,7 @@ def step (c : CS) (l : Line) : CS :=
       -- a profile that must be rejected may be refused by SetProfile or, at the latest, by MainInit
       let c := { c with pendingReject := if v.isNone ∧ l.nat "ret" = 0 then some js else none }
       match v with
-      | some (en, a, s) => { c with enabled := some en, algs := some a, sfl := s }
+      | some (en, a, s, fl) => { c with enabled := some en, algs := some a, sfl := s, attrFlags := fl }
       | none => c
   | "maininit" =>
       match c.pendingReject with
@@ -158,6 +160,20 @@ def step (c : CS) (l : Line) : CS :=
         let c := checkSurface c tag
         if tag = "first" then { c with first := c.cur }
         else if c.first != c.cur then mism c s!"SPEC[surface-changed] [{tag}] the command/algorithm surface differs from the one after the first start" else c
+  | "attrprobe" =>
+      -- what the profile's attributes enforce; the harness sends these only for profiles that leave every algorithm and command on
+      let c := ev c
+      let tag := l.str "tag"
+      (List.range 6).foldl (fun c i =>
+        let p := i + 1
+        let rc := l.nat s!"p{p}"
+        let base := if rc = 0 then 0 else rc % 64 + 128 * (rc / 128 % 2)
+        let exp := attrProbe c.attrFlags p
+        let c := branch c s!"attrprobe/p{p}/exp={exp}"
+        if base ≠ exp then
+          (if exp = 0 ∨ exp = 0x9B then mism c s!"SPEC[attribute-overreach] [{tag}] probe {p} answered rc={rc} although the profile's attributes (flags {c.attrFlags}) do not forbid it"
+           else mism c s!"SPEC[attribute-not-enforced] [{tag}] probe {p} answered rc={rc}; the profile's attributes (flags {c.attrFlags}) demand the refusal {exp}")
+        else c) c
   | "roundtrip" =>
       let c := ev c
       let builtin : Bool := match c.active with
